@@ -88,6 +88,11 @@ Lemma ops_same : ops = backend_ops. Proof. reflexivity. Qed.
 Definition one_451_no_2xx (codes : list text) : Prop :=
   count_occ (list_eq_dec Z.eq_dec) codes c451 = 1 /\ forallb (fun c => negb (is_2xx c)) codes = true.
 
+(* every field of the session record but the restart offset *)
+Definition same_ctl_but_rest (s s' : sess) : Prop :=
+  s_user s' = s_user s /\ s_logged s' = s_logged s /\ s_cwd s' = s_cwd s /\ s_passive s' = s_passive s /\
+  s_ended s' = s_ended s /\ s_rnfr s' = s_rnfr s /\ s_data s' = s_data s.
+
 Section Q.
   Variable users : list user.
   Variable table : list (string * (string * list deco * option string)).
@@ -148,10 +153,10 @@ Section Q.
   Definition raised (w0 w' : fw) : Prop := fw_faults w0 < fw_faults w'.
 
   (* what the session looks like after a command in which a backend call raised *)
-  Definition ctl_kept (v : text) (s s' : sess) : Prop :=
+  Definition ctl_kept (s s' : sess) : Prop :=
     s_ended s' = false /\ s_user s' = s_user s /\ s_logged s' = s_logged s /\ s_cwd s' = s_cwd s /\
     s_passive s' = s_passive s /\
-    s_rest s' = (if is_transfer v then s_rest s else 0%Z).   (* the dispatcher's own rule, fault or not *)
+    s_rest s' = 0%Z.   (* the dispatcher's own rule, fault or not: a pending offset never outlives a known verb *)
 
   Definition rnfr_rule (w0 w' : fw) : Prop :=
     s_rnfr (fw_s w') = s_rnfr (fw_s w0) \/ (s_rnfr (fw_s w') = None /\ log_head w' "rename").
@@ -166,11 +171,19 @@ Section Q.
     (fw_dst w' = StClosed \/ (fw_dst w' = StOpen /\ log_head w' "open")) /\
     (sfirst' -> fw_dst w' = StClosed).
 
-  Definition contained (v : text) (w0 w' : fw) : Prop :=
-    ctl_kept v (fw_s w0) (fw_s w') /\ rnfr_rule w0 w' /\ fw_info w' = [] /\
+  Definition contained (w0 w' : fw) : Prop :=
+    ctl_kept (fw_s w0) (fw_s w') /\ rnfr_rule w0 w' /\ fw_info w' = [] /\
     (before_150 w0 w' \/ after_150 w0 w').
 
-  Theorem fstep_contained w0 e : raised w0 (fstep' w0 e) -> contained (e_verb e) w0 (fstep' w0 e).
+  Lemma clear_rest_spec v w :
+    fw_faults (clear_rest v w) = fw_faults w /\ fw_codes (clear_rest v w) = fw_codes w /\
+    fw_dst (clear_rest v w) = fw_dst w /\ fw_info (clear_rest v w) = fw_info w /\
+    fw_log (clear_rest v w) = fw_log w /\
+    same_ctl_but_rest (fw_s w) (fw_s (clear_rest v w)) /\
+    s_rest (fw_s (clear_rest v w)) = (if is_transfer v then 0%Z else s_rest (fw_s w)).
+  Proof. unfold clear_rest, same_ctl_but_rest. destruct (is_transfer v); cbn; repeat split. Qed.
+
+  Theorem fstep_contained w0 e : raised w0 (fstep' w0 e) -> contained w0 (fstep' w0 e).
   Proof.
     unfold raised, fstep. cbv zeta. set (w := fresh w0).
     destruct (s_ended (fw_s w)) eqn:En; [cbn; lia|].
@@ -182,18 +195,24 @@ Section Q.
     assert (C1 : fw_codes w1 = []) by (subst w1; destruct (is_transfer (e_verb e)); reflexivity).
     assert (D1 : fw_dst w1 = StNone) by (subst w1; destruct (is_transfer (e_verb e)); reflexivity).
     assert (I1 : fw_info w1 = []) by (subst w1; destruct (is_transfer (e_verb e)); reflexivity).
-    assert (K1 : ctl_kept (e_verb e) (fw_s w0) (fw_s w1) /\ s_rnfr (fw_s w1) = s_rnfr (fw_s w0) /\
-                 s_data (fw_s w1) = s_data (fw_s w0)).
-    { subst w1. unfold ctl_kept. destruct (is_transfer (e_verb e)); cbn; repeat split; exact En. }
+    assert (K1 : same_ctl_but_rest (fw_s w0) (fw_s w1) /\ s_rnfr (fw_s w1) = s_rnfr (fw_s w0) /\
+                 s_data (fw_s w1) = s_data (fw_s w0) /\
+                 s_rest (fw_s w1) = (if is_transfer (e_verb e) then s_rest (fw_s w0) else 0%Z)).
+    { subst w1. unfold same_ctl_but_rest. destruct (is_transfer (e_verb e)); cbn; repeat split. }
     pose proof (HS 3 h (e_arg e) (e_data e) false w1) as S.
-    destruct (fhandler' 3 h (e_arg e) (e_data e) false w1) as [b w2|pio w2]; cbn [hspec] in S.
-    - destruct b; cbn; lia.
+    destruct (fhandler' 3 h (e_arg e) (e_data e) false w1) as [b w2|pio w2]; cbn [hspec] in S;
+      destruct (clear_rest_spec (e_verb e) w2) as (Qf & Qc & Qd & Qi & Ql & Qs & Qr).
+    - destruct b; cbn [end_fw upd_s fw_faults]; lia.
     - intros _. destruct S as (Ef & Ep & Sc & Ei & Rn & Alt). subst pio. rewrite on_raise_pio.
-      destruct K1 as (K1 & R1 & A1). destruct K1 as (k1 & k2 & k3 & k4 & k5 & k6).
+      destruct K1 as (K1 & R1 & A1 & T1). destruct K1 as (k1 & k2 & k3 & k4 & k5 & k7 & k8).
       destruct Sc as (s1 & s2 & s3 & s4 & s5 & s6).
+      destruct Qs as (q1 & q2 & q3 & q4 & q5 & q7 & q8).
+      assert (Z : s_rest (fw_s (clear_rest (e_verb e) w2)) = 0%Z).
+      { rewrite Qr. destruct (is_transfer (e_verb e)); [reflexivity|congruence]. }
       unfold contained, ctl_kept, rnfr_rule, before_150, after_150, log_head. cbn [fw_s fw_codes fw_dst fw_info fw_log].
-      split; [repeat split; congruence|].
-      split; [destruct Rn as [Rn|[Rn Lg]]; [left; congruence|right; split; [exact Rn|exact Lg]]|].
+      rewrite Qc, Qd, Qi, Ql.
+      split; [repeat split; try congruence; change (fw_s w) with (fw_s w0) in En; congruence|].
+      split; [destruct Rn as [Rn|[Rn Lg]]; [left; congruence|right; split; [congruence|exact Lg]]|].
       split; [congruence|].
       destruct Alt as [(Ac & Ad & Aa)|(Ac & Aa & Ab & Ar & Ad & Asf)].
       + left. rewrite Ac, C1. repeat split; congruence.
@@ -223,7 +242,7 @@ Section Q.
     exists keep w2,
       fhandler' 3 h (e_arg e) (e_data e) false
         (if is_transfer (e_verb e) then fresh w0 else upd_s (fresh w0) (set_rest (fw_s (fresh w0)) 0%Z)) = Ok keep w2 /\
-      fstep' w0 e = (if keep then w2 else end_fw w2).
+      fstep' w0 e = (if keep then clear_rest (e_verb e) w2 else end_fw (clear_rest (e_verb e) w2)).
   Proof.
     intros En Ev Eh. unfold fstep. cbv zeta. change (fw_s (fresh w0)) with (fw_s w0). rewrite En, Ev, Eh.
     set (w1 := if is_transfer (e_verb e) then fresh w0 else upd_s (fresh w0) (set_rest (fw_s w0) 0%Z)).
@@ -231,12 +250,13 @@ Section Q.
     pose proof (HS 3 h (e_arg e) (e_data e) false w1) as S.
     destruct (fhandler' 3 h (e_arg e) (e_data e) false w1) as [b w2|pio w2]; cbn [hspec] in S.
     - intros _. exists b, w2. split; [reflexivity|]. destruct b; reflexivity.
-    - destruct S as (Ef & Ep & _). subst pio. rewrite on_raise_pio. cbn. lia.
+    - destruct S as (Ef & Ep & _). subst pio. rewrite on_raise_pio. cbn [fw_faults].
+      destruct (clear_rest_spec (e_verb e) w2) as (Qf & _). lia.
   Qed.
 
   Theorem session_survives w0 e :
     raised w0 (fstep' w0 e) ->
-    ctl_kept (e_verb e) (fw_s w0) (fw_s (fstep' w0 e)) /\ rnfr_rule w0 (fstep' w0 e) /\
+    ctl_kept (fw_s w0) (fw_s (fstep' w0 e)) /\ rnfr_rule w0 (fstep' w0 e) /\
     (s_data (fw_s (fstep' w0 e)) = s_data (fw_s w0) \/
      (In c150 (fw_codes (fstep' w0 e)) /\ s_data (fw_s w0) = true /\ s_data (fw_s (fstep' w0 e)) = false)).
   Proof.
@@ -285,7 +305,7 @@ Section Q.
     end.
 
   Theorem run_contained es : forall w,
-    all_steps (fun w0 e w' => raised w0 w' -> contained (e_verb e) w0 w' /\ one_451_no_2xx (fw_codes w')) w es.
+    all_steps (fun w0 e w' => raised w0 w' -> contained w0 w' /\ one_451_no_2xx (fw_codes w')) w es.
   Proof.
     induction es as [|e r IH]; intro w; cbn [all_steps]; [exact Logic.I|]. split; [|apply IH].
     intro H. split; [exact (fstep_contained w e H)|exact (proj2 (fault_gives_451 w e H))].
